@@ -400,3 +400,17 @@ def check_pointer_arith(rep, db, f, inst, label):
                 rep.ok("R-C05-ovf", site(f), "index bounded or stride 1", inst)
             else:
                 rep.violation("R-C05-ovf", site(f) + " [index*stride]", "index*stride (%d) can wrap modulo 2^64 before the containment check (no bound on the index)" % want_stride, f["loc"], inst)
+
+
+CHECKED_CONV = "rlbox::detail::convert_type_fundamental"
+
+
+def unchecked_conversion(p, v):
+    """a narrowing / sign-changing integer conversion contained in value v that was performed (on this path) by some function other
+    than the checked conversion routine; returns (cast term, functions) or None"""
+    for c_ in subterms(v):
+        if isinstance(c_, tuple) and c_ and c_[0] in ("cast", "xcast"):
+            org = p.state.mem.get(("castorigin", c_))
+            if org and any(o != CHECKED_CONV for o in org):
+                return c_, [o for o in org if o != CHECKED_CONV]
+    return None
